@@ -15,13 +15,13 @@ def encStream (ip : IsPrint) : List (ECfg × GoVal) → Bytes
 
 /-- What `C03_roundtrip` asks of one element. -/
 def ElemOK (ip : IsPrint) (cfg : Cfg) (it : ECfg × GoVal) : Prop :=
-  0 ≤ it.1.proto ∧ it.1.proto ≤ 5 ∧ cfg.su = it.1.su ∧ canon cfg it.2 = true ∧
+  0 ≤ it.1.proto ∧ it.1.proto ≤ 5 ∧ cfg.su = it.1.su ∧ canon cfg true it.2 = true ∧
     FloatsOK it.1 (floatsOf it.2) ∧ (encodeTop ip it.1 none it.2).err = none
 
 /-- Element by element: the i-th returned value represents the i-th encoded value. -/
 def AllRep (cfg : Cfg) : List GoVal → List (ECfg × GoVal) → Prop
   | [], [] => True
-  | r :: rs, it :: its => (∃ h, Rep (goCfg cfg) h r it.2) ∧ AllRep cfg rs its
+  | r :: rs, it :: its => (∃ h, Rep (goCfg cfg) GoVal.ref h r it.2) ∧ AllRep cfg rs its
   | _, _ => False
 
 /-- **C11 (streams of encoded values).** Decoding the concatenation of any number of `Encode` outputs
